@@ -323,6 +323,17 @@ func (u *Universe) MapOf(key, elem Sort) Sort {
 	return name
 }
 
+// Opaque declares an uninterpreted sort.
+func (u *Universe) Opaque(name string) Sort {
+	sn := Sort(name)
+	if _, ok := u.dts[sn]; ok {
+		return sn
+	}
+	u.dts[sn] = &DT{Name: sn, Kind: "opaque", Decl: fmt.Sprintf("(declare-sort %s 0)\n(declare-const zero_%s %s)", name, name, name)}
+	u.order = append(u.order, sn)
+	return sn
+}
+
 func (u *Universe) PtrOf(elem Sort) Sort {
 	name := Sort("Ptr" + sanitize(string(elem)))
 	if _, ok := u.dts[name]; ok {
@@ -486,6 +497,8 @@ func (u *Universe) Zero(s Sort) Term {
 			IntLit(0))
 	case "ptr":
 		return Term{"nil_" + string(s), s}
+	case "opaque":
+		return Term{"zero_" + string(s), s}
 	case "struct":
 		var args []Term
 		for _, f := range d.Fields {
